@@ -46,7 +46,11 @@ def prepare(repo_root, crate, scratch):
     cdir = os.path.join(scratch, cfg['dir'])
     hsrc = os.path.join(VERIF, 'kani', cfg['harness_dir'])
     hdst = os.path.join(cdir, 'src', 'verif_kani')
-    shutil.copytree(hsrc, hdst)
+    shutil.copytree(hsrc, hdst, ignore=shutil.ignore_patterns('_append_*'))
+    for fn in sorted(os.listdir(hsrc)):
+        if fn.startswith('_append_') and fn.endswith('.rs.txt'):
+            with open(os.path.join(cdir, 'src', fn[len('_append_'):-len('.txt')].replace('__', '/')), 'a') as f:
+                f.write(open(os.path.join(hsrc, fn)).read())
     lib = os.path.join(cdir, 'src', 'lib.rs')
     with open(lib, 'a') as f:
         f.write('\n#[cfg(kani)]\nmod verif_kani;\n')
